@@ -163,7 +163,7 @@ def wide_stream(item):
 
 # ------------------------------------------------------------------ part 2: cadence in a session
 FIRST = datetime.date(2020, 2, 24)
-MARKET_SPEC = {'AAA': ('rising', BASES['AAA']), 'BBB': ('zigzag', BASES['BBB'])}
+MARKET_SPEC = {'AAA': ('rising', BASES['AAA']), 'BBB': ('zigzag', BASES['BBB']), 'CCC': ('gapdown', BASES['CCC'])}
 
 
 def cadence_items(tier):
@@ -214,6 +214,11 @@ def cadence_cfgs(item):
             # the same universe with the late entrant LISTED FIRST in the mapping
             cfg2 = dict(cfg, universe={'kind': 'dynamic', 'entries': {'EQ:BBB': late, 'EQ:AAA': early}})
             yield label + '_listed_first', entry, days, cfg2
+            if label.startswith('day') and label.endswith('_at_close'):
+                # TWO assets join at the same instant: each keeps its own window of its own closes
+                cfg3 = dict(cfg, assets=['EQ:AAA', 'EQ:BBB', 'EQ:CCC'],
+                            universe={'kind': 'dynamic', 'entries': {'EQ:AAA': early, 'EQ:BBB': late, 'EQ:CCC': late}})
+                yield label + '_twin', entry, days, cfg3
 
 
 def check_cadence(label, entry, days, cfg, market, handler, reuse_universe=False):
@@ -241,6 +246,8 @@ def check_cadence(label, entry, days, cfg, market, handler, reuse_universe=False
     ent = {'EQ:AAA': start - datetime.timedelta(days=5), 'EQ:BBB': entry}
     if label == 'static':
         ent['EQ:BBB'] = start - datetime.timedelta(days=5)
+    if 'EQ:CCC' in cfg['assets']:
+        ent['EQ:CCC'] = entry
     if obs.signals.warmup != len(closes):
         fails.append({'clause': 'C16.warmup', 'detail': {'warmup': obs.signals.warmup, 'closes': len(closes)}})
     kinds = {'mom': 'momentum', 'sma': 'sma', 'vol': 'vol'}
@@ -251,7 +258,7 @@ def check_cadence(label, entry, days, cfg, market, handler, reuse_universe=False
     for t in closes:
         if burn is not None and t < burn:
             continue          # no rebalance, hence no reading, before the burn-in; the closes still count as observations
-        for asset in ('EQ:AAA', 'EQ:BBB'):
+        for asset in cfg['assets']:
             e = ent[asset]
             if e is None or t < e:
                 continue
